@@ -314,7 +314,7 @@ func (g *tmplGen) siblings(n int) []*TNode {
 		default:
 			out = append(out, g.elem(""))
 			if g.r.Chance(40) {
-				out = append(out, &TNode{Kind: "text", Text: g.r.Pick([]string{"\n", "\n  ", " "})})
+				out = append(out, &TNode{Kind: "text", Text: g.r.Pick([]string{"\n", "\n  ", " ", "\r\n", "\r", "\r\n  "})})
 			}
 		}
 	}
